@@ -47,6 +47,12 @@ func (x *rx) access() {
 						if p.X == ast.Expr(e) {
 							kind = "range"
 						}
+					case *ast.UnaryExpr: // `v, ok := <-ch` in the stage's loop: the other spelling of ranging over the channel
+						if p.Op == token.ARROW && len(stack) >= 3 {
+							if as, ok := stack[len(stack)-3].(*ast.AssignStmt); ok && len(as.Lhs) == 2 {
+								kind = "range"
+							}
+						}
 					case *ast.CallExpr:
 						if b, ok := core.Callee(x.info, p).(*types.Builtin); ok {
 							switch b.Name() {
